@@ -347,8 +347,12 @@ def run(F, rep, tier="quick", extra=None, only=None):
             by_comp.setdefault(comp, []).append((name, args))
         if m == "from_iter" and not sites:
             # delegates to Extend: `result.extend(iter)` on the whole value
-            whole = [n for n, _p in facts.walk(b["body"]) if n.get("k") == "mcall" and n.get("n") == "extend"]
-            rep.ob("COVER", key, bool(whole), "delegates to Extend::extend on the whole value", loc)
+            whole = [(n, _p) for n, _p in facts.walk(b["body"]) if n.get("k") == "mcall" and n.get("n") == "extend"]
+            # ... unconditionally, and with the iterator it was given: a collect that extends only "when there is something to extend"
+            # (size_hint, peeking) drops every item of an iterator that cannot tell its length
+            cond = [p_.get("k") for n_, ps in whole for p_ in ps if p_.get("k") in ("if", "match", "loop", "closure")]
+            rep.ob("COVER", key, bool(whole) and not cond,
+                   "delegates to Extend::extend on the whole value" + ("" if not cond else ", but under %s: some iterators are not collected" % sorted(set(cond))), loc)
             continue
         missing = [c for c in comps if c not in by_comp]
         extra_ = [c for c in by_comp if c not in comps]
